@@ -57,8 +57,9 @@ func main() {
 	if n < 2 {
 		n = 2 // the worker protocol needs VERIF_NSHARDS > 1 to select the sequential ParFor
 	}
-	if err := c.RunSharded(n, []string{"C20", mode}); err != nil {
-		fmt.Fprintln(os.Stderr, "harness error:", err)
+	deaths, err := c.RunSharded(n, []string{"C20", mode})
+	if err != nil || len(deaths) > 0 {
+		fmt.Fprintln(os.Stderr, "harness error:", err, deaths)
 		os.Exit(2)
 	}
 	racePass(c)
